@@ -426,7 +426,9 @@ class Check:
         lines = []
         nviol = 0
         seen_known = set()
-        rdir = os.path.join(VERIF, "replays", self.pid)
+        # runs against a scratch worktree (ZN_REPO) keep their evidence and replays apart from the tree's own
+        outdir = VERIF if REPO == "/repo" else os.path.join(BUILD, "alt" + REPO_TAG)
+        rdir = os.path.join(outdir, "replays", self.pid)
         for v in self.violations:
             sig = v["signature"]
             if sig in open_sigs:
@@ -459,8 +461,8 @@ class Check:
         ev = {"property_id": self.pid, "tier": self.tier, "seed": self.seed, "level": level,
               "coverage": cov, "assumptions": self.assumptions, "wall_s": round(time.time() - self.t0, 2),
               "violations": nviol}
-        os.makedirs(os.path.join(VERIF, "evidence"), exist_ok=True)
-        with open(os.path.join(VERIF, "evidence", self.pid + ".json"), "w", encoding="utf8") as f:
+        os.makedirs(os.path.join(outdir, "evidence"), exist_ok=True)
+        with open(os.path.join(outdir, "evidence", self.pid + ".json"), "w", encoding="utf8") as f:
             json.dump(ev, f, ensure_ascii=False, indent=1)
         for l in lines:
             print(l)
